@@ -128,3 +128,22 @@ func ElemGlobal(i int) int {
 	tbl[0] = i
 	return i
 }
+
+// slices have value semantics in the translation: anything that could make two names share a mutated backing array is refused
+
+func AliasAppend(a []int) int {
+	b := append(a, 1)
+	c := append(a, 2)
+	return b[len(a)] + c[len(a)]
+}
+
+func AliasCopy(a []int) int {
+	b := a
+	b[0] = 1
+	return a[0]
+}
+
+func AliasParams(a, b []int) int {
+	a[0] = 1
+	return b[0]
+}
